@@ -67,7 +67,30 @@ def _bad_partner(x, a):
     return CTX.lib.RaggedArray(np.asarray(x.ravel()).copy(), lens)
 
 
+def _partner_after(x, a):
+    """combine x with a mismatching partner (accepted or refused, depending on the receiver's safety switch) and report the PARTNER afterwards"""
+    p = _bad_partner(x, a)
+    try:
+        (x == p) if a[2] else (p == x)
+    except Exception:
+        pass
+    return p.tolist()
+
+
+def _m_partner(r, a):
+    lens = [len(q) for q in r]
+    lens[a[0]] -= 1
+    lens[a[1]] += 1
+    flat = [v for q in r for v in q]
+    out, k = [], 0
+    for l in lens:
+        out.append(flat[k:k + l])
+        k += l
+    return out
+
+
 OBS = {
+    "partnerpurity": (_partner_after, _m_partner),
     "tolist": (lambda x, a: x.tolist(), lambda r, a: [list(q) for q in r]),
     "iter": (lambda x, a: [q.tolist() for q in x], lambda r, a: [list(q) for q in r]),
     "ravel": (lambda x, a: x.ravel().tolist(), lambda r, a: [v for q in r for v in q]),
@@ -123,7 +146,7 @@ OBS = {
 MATERIALISING = {"tolist", "iter", "ravel", "sum1", "npsum1", "sumall", "nonzero", "add1", "eqself", "cumsum", "sort", "diff", "zeros", "concatself", "astype", "save"}
 READ_OPS = [k for k in OBS]
 # observations whose result on float data (NaN, inf, -0.0, non-dyadic values) is defined element by element, hence exactly predictable
-FLOAT_OBS = ["tolist", "iter", "ravel", "meta", "repr", "str", "row", "elem", "rowscol", "pairs", "elem_oob", "badadd", "ell", "empty", "maskidx", "subset", "padded", "nonzero", "add1", "sel", "rslice",
+FLOAT_OBS = ["partnerpurity", "tolist", "iter", "ravel", "meta", "repr", "str", "row", "elem", "rowscol", "pairs", "elem_oob", "badadd", "ell", "empty", "maskidx", "subset", "padded", "nonzero", "add1", "sel", "rslice",
              "getcol", "colcounts", "tonp", "astype", "concatself", "zeros", "diff", "save"]
 FLOAT_READS = FLOAT_OBS + ["sum1", "npsum1", "sumall", "any1", "eqself", "where", "max1", "sort", "unique", "mean1", "mean0", "all1", "min1"]     # fine as *inserted reads* (no model opinion needed)
 FLOAT_POOL = [0.1, 0.7, 1e17, 1.0, -2.5, 3.25, float("inf"), float("nan"), -0.0, 0.3, 123456.789, -1e-7, float("-inf"), 2.0]
@@ -143,7 +166,7 @@ def obs_applicable(name, rows):
         return tot > 0
     if name == "elem_oob":
         return n > 0
-    if name == "badadd":
+    if name in ("badadd", "partnerpurity"):
         return n >= 2 and tot > 0
     if name == "padded":
         return n > 0
@@ -184,7 +207,7 @@ def obs_arg(rng, name, rows):
         # flat position still lies inside the buffer, so only a real bounds check refuses it
         i = rng.randrange(n)
         return [i if rng.random() < 0.5 else i - n, lens[i] if rng.random() < 0.5 else -lens[i] - 1]
-    if name == "badadd":
+    if name in ("badadd", "partnerpurity"):
         src = rng.choice([k for k in range(n) if lens[k]])
         dst = rng.choice([k for k in range(n) if k != src])
         return [src, dst, rng.random() < 0.5]
@@ -229,11 +252,13 @@ def gen_program(rng, tier="quick", allow_hazard=False, nsteps=None, init_rows=No
     """-> case {"steps": [...], "hazard": bool}; the list model is executed while generating"""
     via = None
     if not big and init_rows is None and rng.random() < 0.12:
-        via = rng.choice(["fromnumpy", "fromnumpy-F", "tonumpy-called"])       # rectangular contents, built from / converted to a 2-D numpy array
-    lens, _ = gen.length_vector(rng, tier, maxrows=5 if tier == "quick" else 8, maxlen=5 if tier == "quick" else 8, stratum="big" if big else ("rect" if via else None))
+        via = rng.choice(["fromnumpy", "fromnumpy-F", "tonumpy-called", "unsafe", "unsafe"])       # rectangular contents, built from / converted to a 2-D numpy array; or safe_mode=False
+    lens, _ = gen.length_vector(rng, tier, maxrows=5 if tier == "quick" else 8, maxlen=5 if tier == "quick" else 8, stratum="big" if big else ("rect" if (via and via != "unsafe") else None))
     isf = dtype == "float64"
     num = (lambda lo, hi: rng.choice(FLOAT_POOL)) if isf else (lambda lo, hi: rng.randint(lo, hi))
     read_ops = FLOAT_OBS if isf else READ_OPS
+    if via == "unsafe":
+        read_ops = [o for o in read_ops if o not in ("elem_oob", "badadd")]     # refusals are off by design for this array and what derives from it
     if init_rows is None:
         init_rows = [[num(-20, 40) for _ in range(l)] for l in lens]
     env = {"a0": copy.deepcopy(init_rows)}
@@ -274,7 +299,7 @@ def gen_program(rng, tier="quick", allow_hazard=False, nsteps=None, init_rows=No
                 return True
         return False
 
-    kinds = ["sel", "sel", "sel", "sel", "alias", "ufs", "neg", "ufcol", "ufra", "concat", "sort", "cumsum", "diff", "where", "zeros", "unique",
+    kinds = ["partner", "cmp2", "sel", "sel", "sel", "sel", "alias", "ufs", "neg", "ufcol", "ufra", "concat", "sort", "cumsum", "diff", "where", "zeros", "unique",
              "assign", "assign", "assign", "maskassign", "rowwrite", "ravelwrite", "obs", "obs", "obs"]
     if isf:
         kinds = [k for k in kinds if k not in ("sort", "cumsum", "unique")] + ["ufcol", "ufcol", "ufcol"]
@@ -286,6 +311,27 @@ def gen_program(rng, tier="quick", allow_hazard=False, nsteps=None, init_rows=No
         U = env[u]
         n = len(U)
         maxl = max((len(r) for r in U), default=0)
+        if kind == "partner":
+            # a second, independently built array: the same cells cut into other row lengths (one cell moved to another row)
+            tot_ = sum(len(r) for r in U)
+            if n < 2 or tot_ == 0:
+                continue
+            src = rng.choice([k for k in range(n) if U[k]])
+            dst = rng.choice([k for k in range(n) if k != src])
+            materialise(u)
+            v = fresh()
+            env[v] = _m_partner(U, [src, dst])
+            steps.append({"op": "partner", "v": v, "u": u, "move": [src, dst]})
+            continue
+        if kind == "cmp2":
+            # an element-wise comparison of two arrays whose row lengths differ (refused, or - with safe_mode=False - carried out on the flat data):
+            # either way a read-only operation on both
+            cands = [w for w in env if w != u and sum(len(r) for r in env[w]) == sum(len(r) for r in U) and not same_lens(env[w], U)]
+            if not cands:
+                continue
+            w = rng.choice(cands)
+            steps.append({"op": "cmp2", "u": u, "w": w})        # (whether a refused comparison has already materialised its operands is not assumed)
+            continue
         if kind == "sel":
             from .props import c02
             rs = c02.random_selector(rng, n, allow_oob=False)
@@ -534,6 +580,10 @@ def run_model(steps):
                 vals = [x for r in env[st["w"]] for x in r]
             for (i, j), x in zip(flat, vals):
                 U[i][j] = x
+        elif op == "partner":
+            env[st["v"]] = _m_partner(env[st["u"]], st["move"])
+        elif op == "cmp2":
+            pass
         elif op == "obs":
             f = OBS[st["what"]][1]
             obs.append((si, None if f is None else f(env[st["u"]], st["arg"])))
@@ -585,7 +635,9 @@ def run_lib(steps, mode="L", read_plan=None, purity=False, trace=None):
         if op == "init":
             flat = np.array([x for r in st["rows"] for x in r], dtype=DT)
             lens0 = [len(r) for r in st["rows"]]
-            if st.get("via") and mode == "L" and lens0 and len(set(lens0)) == 1:
+            if st.get("via") == "unsafe" and mode == "L":
+                env[st["v"]] = RA(flat, lens0, safe_mode=False)
+            elif st.get("via") and mode == "L" and lens0 and len(set(lens0)) == 1:
                 # as written: the array comes from a 2-D numpy array; in mode F the variable is the freshly built equal array
                 m0 = flat.reshape(len(lens0), lens0[0])
                 if st["via"] == "tonumpy-called":
@@ -660,6 +712,24 @@ def run_lib(steps, mode="L", read_plan=None, purity=False, trace=None):
                 else:
                     value = env[st["w"]]
                 tgt[idx] = value
+        elif op == "partner":
+            x_ = env[st["u"]]
+            flat_ = np.array(x_.ravel(), copy=True)          # (reads the flat view: the source is materialised from here on, as the generator assumes)
+            lens_ = [int(l) for l in x_.lengths]
+            lens_[st["move"][0]] -= 1
+            lens_[st["move"][1]] += 1
+            new = RA(flat_, lens_)
+        elif op == "cmp2":
+            before = live_snapshot() if purity else None
+            try:
+                env[st["u"]] == env[st["w"]]
+            except Exception:
+                pass
+            if purity:
+                after = live_snapshot()
+                CTX.tick("purity-tap")
+                if not deep_same(after, before):
+                    breaches.append((si, "comparison with an array of other row lengths", [v for v in before if not deep_same(before[v], after.get(v))]))
         elif op == "obs":
             before = live_snapshot() if purity else None
             if trace is not None:
